@@ -346,6 +346,21 @@ struct F1Spec {
 }
 
 impl F1Spec {
+    /// (feature records as stored, complete entry-map records of `entry_map_data`, its byte length)
+    fn feature_map_view(&self) -> Option<(Vec<(u32, u32, u32)>, Vec<(u32, u32)>, usize)> {
+        let (recs, emaps, trailing) = self.feature_map.as_ref()?;
+        let wide = self.max_entry >= 256;
+        let m = |v: u16| -> u32 { if wide { v as u32 } else { (v & 0xFF) as u32 } };
+        let mut data: Vec<u8> = vec![];
+        for (f, l) in emaps { if wide { data.extend(f.to_be_bytes()); data.extend(l.to_be_bytes()); } else { data.push(*f as u8); data.push(*l as u8); } }
+        data.extend(trailing);
+        let rs = if wide { 4 } else { 2 };
+        let ems = (0..data.len() / rs).map(|i| if wide {
+            (u16::from_be_bytes([data[i * 4], data[i * 4 + 1]]) as u32, u16::from_be_bytes([data[i * 4 + 2], data[i * 4 + 3]]) as u32)
+        } else { (data[i * 2] as u32, data[i * 2 + 1] as u32) }).collect();
+        Some((recs.iter().map(|(t, f, c)| (tagnum(*t), m(*f), m(*c))).collect(), ems, data.len()))
+    }
+
     fn build(&self, maxp_glyphs: u16, cmap: &[(u32, u32)]) -> BuiltTable {
         let wide = self.max_entry >= 256;
         let mut b: Vec<u8> = vec![1, 0, 0, 0, 0];
@@ -971,6 +986,40 @@ fn isect_and_select(s: &mut Session, rng: &mut Rng, sc: &Scenario, ndefs: usize,
                             }).filter(|ix| *ix > 0 && *ix <= t.max_gm as u32 && t.bitmap[*ix as usize / 8] & (1 << (ix % 8)) == 0).collect()
                         };
                         let got_ix: Vec<u32> = v.iter().filter(|(u, _)| u.is_iftx == iftx).filter_map(|(u, _)| match u.id { PatchId::Numeric(ix) => Some(ix), _ => None }).collect();
+                        // feature-map part, from the specification's closed form: a feature record is used iff its
+                        // tag is requested and larger than every earlier record's tag; its i-th entry-map record
+                        // (first..=last valid, containing a glyph-map entry hit by the definition) adds first_new+i
+                        if let Some((recs, ems, _)) = t.feature_map_view() {
+                            let hit: BTreeSet<u32> = {
+                                let f = FontRef::new(&font).unwrap();
+                                let cm = Charmap::new(&f);
+                                let gids: Vec<u32> = if d.codepoints.is_inverted() {
+                                    cm.mappings().filter(|(c, _)| d.codepoints.contains(*c)).map(|(_, g)| g.to_u32()).collect()
+                                } else { d.codepoints.iter().filter_map(|c| cm.map(c).map(|g| g.to_u32())).collect() };
+                                gids.iter().filter_map(|g| if *g < t.first_gid as u32 { Some(0) } else {
+                                    t.entry_index.get((*g - t.first_gid as u32) as usize).map(|e| *e as u32 & if t.max_entry < 256 { 0xFF } else { 0xFFFF }) })
+                                    .filter(|ix| *ix <= t.max_gm as u32).collect()
+                            };
+                            let mut want_high: BTreeSet<u32> = BTreeSet::new();
+                            let mut running: Option<u32> = None; let mut cum = 0usize;
+                            for (tag, first_new, count) in &recs {
+                                let requested = match &d.feature_tags { FeatureSet::All => true, FeatureSet::Set(x) => x.iter().any(|y| tagnum(*y) == *tag) };
+                                if requested && running.map_or(true, |m| *tag > m) {
+                                    for i in 0..*count {
+                                        let Some((first, last)) = ems.get(cum + i as usize) else { continue };
+                                        let mapped = first_new + i;
+                                        if first > last || *first > t.max_gm as u32 || *last > t.max_gm as u32 || mapped <= t.max_gm as u32 || mapped > t.max_entry as u32 { continue; }
+                                        if hit.range(*first..=*last).next().is_some() && t.bitmap[mapped as usize / 8] & (1 << (mapped % 8)) == 0 { want_high.insert(mapped); }
+                                    }
+                                }
+                                running = Some(running.map_or(*tag, |m| m.max(*tag)));
+                                cum += *count as usize;
+                            }
+                            let got_high: BTreeSet<u32> = got_ix.iter().copied().filter(|ix| *ix > t.max_gm as u32).collect();
+                            s.oracle("format1-feature-map-offer-equals-spec", got_high == want_high, input, || format!("offered={shown} expected feature-map entries={want_high:?}"));
+                        } else {
+                            s.oracle("format1-feature-map-offer-equals-spec", got_ix.iter().all(|ix| *ix <= t.max_gm as u32), input, || format!("offered={shown} but there is no feature map"));
+                        }
                         let low: BTreeSet<u32> = got_ix.iter().copied().filter(|ix| *ix <= t.max_gm as u32).collect();
                         s.oracle("format1-glyph-map-offer-equals-spec", low == expect, input, || format!("offered={shown} expected glyph-map entries={expect:?}"));
                         if !expect.is_empty() { s.count("spec:f1-glyph-nonempty"); }
